@@ -30,27 +30,63 @@ class Eval:
         self.b = body
         self.leaf = leaf
         self.trace = []
+        self.closure_env = None
 
-    def val(self, o, depth=24):
+    @staticmethod
+    def _bails(d):
+        """a store of `None` / `Err(..)` / `from_residual(..)`: the early exit of a `?`, not the value"""
+        return (d[2] == "rv" and d[3]["k"] == "agg" and d[3]["kind"].get("var") in ("None", "Err")) or \
+               (d[2] == "call" and (d[3]["f"].get("fn") or "").endswith("from_residual"))
+
+    def the_def(self, l):
+        d = self.b.single_def(l)
+        if d is not None:
+            return d
+        ds = [d for d in self.b.defs.get(l, []) if d[2] != "proj" and not self._bails(d)]
+        if len(ds) == 1 and not [d for d in self.b.defs.get(l, []) if d[2] == "proj"]:
+            return ds[0]           # the value on the path that does not bail out
+        return None
+
+    def val(self, o, depth=64, pend=()):
         k = op_const(o)
         if k is not None:
             return const_int(k)
         p = op_place(o)
         if p is None or depth <= 0:
             return None
-        lv = self.leaf(self.b, "operand", o)
+        if self.closure_env is not None:
+            # inside a closure being folded: _2 is the bound parameter, (*_1).k the k-th captured value of the enclosing body
+            outer, caps, v = self.closure_env
+            pr = [e for e in p["p"] if e != "*"] + list(pend)
+            if p["l"] == 2 and not pr:
+                return v
+            if p["l"] == 1 and pr and isinstance(pr[0], dict) and "f" in pr[0] and pr[0]["f"] < len(caps):
+                return outer.val(caps[pr[0]["f"]], depth - 1, pr[1:])
+        lv = self.leaf(self.b, "operand", o) if not pend else None
         if lv is not None:
             return lv
-        proj = [e for e in p["p"] if e != "*"]
-        # payload projections of Option/Result/ControlFlow and field 0 of a checked-arithmetic tuple denote the value itself
+        proj = [e for e in p["p"] if e != "*"] + list(pend)
+        # payload projections of Option/Result/ControlFlow and field 0 of a checked-arithmetic tuple denote the value itself;
+        # a field of a struct or tuple built from several values denotes that component
         for e in proj:
             if not (isinstance(e, dict) and ("f" in e or "v" in e or "downcast" in e or e.get("k") == "downcast")):
                 return None
-        d = self.b.single_def(p["l"])
+        d = self.the_def(p["l"])
         if d is None:
             return None
         if d[2] == "rv":
-            return self.rv(d[3], depth - 1)
+            rv = d[3]
+            flds = [e for e in proj if "f" in e]
+            if rv["k"] == "agg" and len(rv["ops"]) > 1 and rv["kind"].get("a") in ("tuple", "adt"):
+                if not flds or flds[0]["f"] >= len(rv["ops"]):
+                    return None
+                i = proj.index(flds[0])
+                return self.val(rv["ops"][flds[0]["f"]], depth - 1, proj[i + 1:])
+            if rv["k"] == "use":
+                return self.val(rv["o"], depth - 1, proj)
+            if rv["k"] == "ref":
+                return self.val({"c": rv["p"]}, depth - 1, proj)
+            return self.rv(rv, depth - 1)
         if d[2] == "call":
             return self.call(d[3], depth - 1)
         return None
@@ -130,22 +166,11 @@ class Eval:
             outer = self
 
             def sub_leaf(b2, kind, x):
-                if kind != "operand":
-                    return outer.leaf(b2, kind, x) if b2 is outer.b else None
-                q = op_place(x)
-                if q is None:
-                    return None
-                pr = [e for e in q["p"] if e != "*"]
-                if q["l"] == 2 and not pr:
-                    return v
-                if q["l"] == 1 and len(pr) == 1 and isinstance(pr[0], dict) and "f" in pr[0] and pr[0]["f"] < len(caps):
-                    return outer.val(caps[pr[0]["f"]], depth - 1)
-                return None
+                return outer.leaf(b2, kind, x) if (kind != "operand" and b2 is outer.b) else None
             sub = Eval(self.F, cb, sub_leaf)
+            sub.closure_env = (outer, caps, v)
             # the value on the path that does not bail out (`?` inside the closure adds `None` / from_residual stores to _0)
-            ds = [d for d in cb.defs.get(0, [])
-                  if not (d[2] == "rv" and d[3]["k"] == "agg" and d[3]["kind"].get("var") in ("None", "Err"))
-                  and not (d[2] == "call" and (d[3]["f"].get("fn") or "").endswith("from_residual"))]
+            ds = [d for d in cb.defs.get(0, []) if not self._bails(d)]
             if len(ds) != 1:
                 return None
             return sub.rv(ds[0][3], depth - 1) if ds[0][2] == "rv" else sub.call(ds[0][3], depth - 1)
